@@ -275,7 +275,9 @@ def main(argv=None):
         validate_evidence(ev)
     except Exception as e:
         checker_errors.append('evidence does not validate: %s' % str(e)[:500])
-    with open(os.path.join(VERIF, 'evidence', prop + '.json'), 'w') as f:
+    evdir = os.environ.get('VERIF_EVIDENCE_DIR') or os.path.join(VERIF, 'evidence')
+    os.makedirs(evdir, exist_ok=True)
+    with open(os.path.join(evdir, prop + '.json'), 'w') as f:
         json.dump(ev, f, indent=1)
 
     decided = bool(bounded) or discharged > 0
